@@ -24,9 +24,6 @@ from oracles.common import in_known
 
 CLASSES = {"F4": lambda c: c["own_fanout"] != 1}
 
-COMPONENT_KINDS = ("Memory", "Toll", "Network", "Compute")
-
-
 def _case(tree, known):
     from accelforge.frontend.spec import Spec
     from accelforge.frontend.arch import Component
@@ -121,6 +118,20 @@ def _per_instance(leaf):
     return area, area / 2
 
 
+# What is required of the components INSIDE an Array.
+#   "spatialable" (in force): the Array is a Spatialable node above its contents, its fan-out multiplies them.
+#       Source: Spatialable.spatial docstring ("Spatial fanouts specified at this level also apply to lower-level
+#       Leaf nodes"), the comment in ArchNode.iterate_hierarchically ("Array -> Each node is independent. Create a
+#       new parent list for each one", the Array itself having been appended to that list) and the unchanged
+#       behaviour of calculate_component_costs.
+#   "flatten": Array._flatten / Hierarchical._flatten (the compute path the mapper and model use) put the contents
+#       of an Array ABOVE the Array node and turn their own spatial into a physical fan-out with stride
+#       array_fanout / own_fanout, i.e. a node inside an Array exists (own fan-out) times per Array, not
+#       (Array fan-out) x (own fan-out) times.  The two views DISAGREE; the cost calculation follows the first.
+# Everything AFTER an Array is multiplied by the Array's fan-out in both views.
+ARRAY_RULE = "spatialable"
+
+
 def _instances(tree):
     """{component name: (instance count, own fan-out, leaf)} by structural recursion -- the definition.
     `mult` = product of the fan-outs of the nodes above the current position on the path.
@@ -142,9 +153,10 @@ def _instances(tree):
                 elif n[0] == "F":
                     rec(n[1], mult)
                 else:
-                    mult = mult * _fan(n[2])
+                    inner = mult * _fan(n[2]) if ARRAY_RULE == "spatialable" else mult
                     for c in n[3]:
-                        rec([c], mult)
+                        rec([c], inner)
+                    mult = mult * _fan(n[2])
                 continue
             if n[0] != "Container":
                 out[n[1]] = (mult * _fan(n[2]), _fan(n[2]), n)
@@ -156,7 +168,7 @@ def _instances(tree):
     return out
 
 
-def _names(tree, spatialable_only=True):
+def _names(tree):
     """names of all nodes that carry a fan-out (leaves and Arrays), preorder"""
     out = []
     for n in tree:
@@ -327,7 +339,7 @@ def _rand_fan(rnd):
 def _rand_tree(rnd, max_nodes=9, depth=3, scales=False):
     counter = itertools.count()
 
-    def leaf(kind=None, in_array=False):
+    def leaf(kind=None):
         kind = kind or rnd.choice(("Memory", "Container", "Compute", "Memory", "Toll", "Network"))
         l = (kind, f"{kind[0]}{next(counter)}", _rand_fan(rnd), rnd.choice([1, 2, 5, 10]))
         if scales and kind != "Container" and rnd.random() < 0.4:
@@ -343,7 +355,7 @@ def _rand_tree(rnd, max_nodes=9, depth=3, scales=False):
                 sub = level(d - 1, budget // 2)
                 out.append((rnd.choice(["H", "F", "F"]), sub))
             elif r < 0.42:
-                out.append(("A", f"Arr{next(counter)}", _rand_fan(rnd), [leaf(in_array=True) for _ in range(rnd.randint(1, 3))]))
+                out.append(("A", f"Arr{next(counter)}", _rand_fan(rnd), [leaf() for _ in range(rnd.randint(1, 3))]))
             else:
                 out.append(leaf())
         return out
